@@ -130,7 +130,7 @@ func compare(m *model, p *prediction, before, after map[string]map[string]string
 			case mFree:
 			case mKeep:
 				if g != e.want {
-					out = append(out, problem{Row: k, Col: f.col, Class: e.cls, Want: e.want + " (unchanged)", Got: g, Before: b, Why: e.why})
+					out = append(out, problem{Row: k, Col: f.col, Class: e.cls, Want: e.want + " (unchanged)", Got: g, Before: b, Why: e.why, NewRow: re.isNew})
 				}
 			case mMust:
 				if g != e.want && (e.alt == "" || g != e.alt) {
@@ -138,7 +138,7 @@ func compare(m *model, p *prediction, before, after map[string]map[string]string
 					if g == b || (re.isNew && (g == "NULL" || g == e.absent)) {
 						cls = "missing-write"
 					}
-					out = append(out, problem{Row: k, Col: f.col, Class: cls, Want: e.want, Got: g, Before: b, Why: e.why})
+					out = append(out, problem{Row: k, Col: f.col, Class: cls, Want: e.want, Got: g, Before: b, Why: e.why, NewRow: re.isNew})
 				}
 			case mRefresh:
 				if !refreshSet(f, t0, t1)[g] {
@@ -167,14 +167,53 @@ func sqlOf(evs []recdrv.Event) []string {
 	return out
 }
 
-func signature(o *op, cls string) string {
+// signature of one disagreement. The two known findings keep their exact classes: KF-C10-1 is a
+// column without UPDATE permission overwritten in an EXISTING (conflicting) row by an explicit
+// DoUpdates list; the same class in a row the upsert inserts is a create-permission matter and
+// has the ordinary family/class signature.
+func signature(o *op, x problem) string {
 	switch {
-	case cls == "save-fallback-upsert-ignores-conditions":
-		return cls
-	case o.family == "upsert-doupdates" && cls == "denied-column-written":
+	case x.Class == "save-fallback-upsert-ignores-conditions":
+		return x.Class
+	case o.family == "upsert-doupdates" && x.Class == "denied-column-written" && !x.NewRow:
 		return "upsert-doupdates-ignores-update-permission"
 	}
-	return o.family + "/" + cls
+	return o.family + "/" + x.Class
+}
+
+// signatures: the distinct signatures of the disagreements of one operation, in order. Next to an
+// error the predicted cells that are missing are its consequence, not findings of their own.
+func signatures(o *op, probs []problem) []string {
+	var out []string
+	seen := map[string]bool{}
+	add := func(x problem) {
+		if sg := signature(o, x); !seen[sg] {
+			seen[sg] = true
+			out = append(out, sg)
+		}
+	}
+	if probs[0].Class == "error" {
+		for _, x := range probs[1:] {
+			if x.Class != "missing-write" && x.Class != "missing-insert" && x.Class != "autotime-not-refreshed" {
+				add(x)
+			}
+		}
+		if len(out) == 0 {
+			add(probs[0])
+		}
+		return out
+	}
+	keyWritten := false
+	for _, x := range probs {
+		keyWritten = keyWritten || x.Class == "omitted-key-written"
+	}
+	for _, x := range probs {
+		if keyWritten && x.Class == "missing-insert" {
+			continue // the row exists under the key that should not have been written
+		}
+		add(x)
+	}
+	return out
 }
 
 func run(c *core.Ctx) {
@@ -246,27 +285,19 @@ func run(c *core.Ctx) {
 			for _, x := range probs {
 				ps = append(ps, x.String())
 			}
-			cls := probs[0].Class
-			if cls == "error" && len(probs) > 1 {
-				// the error explains why predicted cells are missing; a stray write next to it is the finding
-				for _, x := range probs[1:] {
-					if x.Class != "missing-write" && x.Class != "missing-insert" && x.Class != "autotime-not-refreshed" {
-						cls = x.Class
-						break
-					}
-				}
+			for _, sg := range signatures(o, probs) {
+				c.Inc("violation_" + sg)
+				c.Violation(sg, map[string]interface{}{
+					"model":       m.decls(),
+					"seeded_keys": p0keys(m),
+					"operation":   desc,
+					"error":       fmt.Sprint(res.Error),
+					"target_rows": p.target,
+					"problems":    ps,
+					"sql":         sqlOf(evs),
+					"note":        "every cell was seeded with a unique sentinel (ints 1000+, strings s<row>_<col>, times in 2001; column defaults 700+ / dflt<n>); expected = write-set predictor of the property statement; one violation per distinct class of disagreement of the operation",
+				})
 			}
-			c.Inc("violation_" + signature(o, cls))
-			c.Violation(signature(o, cls), map[string]interface{}{
-				"model":       m.decls(),
-				"seeded_keys": p0keys(m),
-				"operation":   desc,
-				"error":       fmt.Sprint(res.Error),
-				"target_rows": p.target,
-				"problems":    ps,
-				"sql":         sqlOf(evs),
-				"note":        "every cell was seeded with a unique sentinel (ints 1000+, strings s<row>_<col>, times in 2001); expected = write-set predictor of the property statement",
-			})
 			continue
 		}
 		// what the case exercised
@@ -315,6 +346,9 @@ func run(c *core.Ctx) {
 		if o.dropKey {
 			c.Inc("ops_create_key_carried_but_omitted")
 		}
+		if o.reordered {
+			c.Inc("ops_chain_calls_reordered")
+		}
 		if nDefKept > 0 && len(o.recs) > 1 {
 			c.Inc("ops_batch_default_field_value_kept_out")
 		}
@@ -355,7 +389,7 @@ func run(c *core.Ctx) {
 				dh = append(dh, t)
 			}
 			sort.Strings(dh)
-			c.Shape(o.kind, o.tform, o.selMode, spell, ph, fm, nMust > 0, nRefresh > 0, nNarrow > 0, nZero > 0, len(p.target) > 1, m.pk.k.name, len(m.pks), dh, o.dropKey)
+			c.Shape(o.kind, o.tform, o.selMode, spell, ph, fm, nMust > 0, nRefresh > 0, nNarrow > 0, nZero > 0, len(p.target) > 1, m.pk.k.name, len(m.pks), dh, o.dropKey, o.reordered)
 			if c.WantSample() && i == 5 {
 				c.Sample(map[string]interface{}{"model": m.decls(), "operation": desc, "target_rows": p.target, "sql": sqlOf(evs),
 					"checked": fmt.Sprintf("%d written cells, %d denied, %d narrowed, %d refreshed, %d rows outside the target unchanged", nMust, nDenied, nNarrow, nRefresh, len(m.rows)-len(p.target))})
@@ -398,9 +432,9 @@ func p0keys(m *model) []string {
 var Engine = &core.Engine{
 	ID:    "C10",
 	Level: "exploration",
-	Rule: "per case one model type built with reflect.StructOf (key int64 / uint / string / composite (int64,string); 3..7 fields of 20 Go kinds incl. pointers and sql.Null*, custom column names, one random permission tag each out of <-:create, <-:update, <-:false, <-, ->, ->;<-:create, ->;<-:update, ->:false;<-:create, ->:false;<-, ->:false, -, -:migration, -:all; 0..3 tracked time fields: UpdatedAt/CreatedAt by name, autoUpdateTime (time, seconds, milli, nano), autoCreateTime) over a table created with raw SQL holding 3..6 rows of unique sentinels; 12 writes per case, each on a re-seeded table: " +
-		"Create(struct | slice | []*T | map | []map), CreateInBatches, upsert (DoUpdates AssignmentColumns / Assignments, UpdateAll, DoNothing; conflicting and new keys mixed), Save (existing key, new key, zero key, slice, under a Where), Updates(struct by value/pointer, value = model), Updates(map), Update, UpdateColumn, UpdateColumns(struct | map) x Select/Omit (none, names, '*', '*'+Omit, names+Omit, Omit('*'); field-name and column spelling; string and []string form) x values zero / non-zero / pointer-to-zero / nil / gorm.Expr x targets Model(key), Where (8 forms, 1..2), Model(key)+Where, Model(slice of keys)[+Where], missing key, value = model [+Where]; " +
-		"distinct = (finisher, target form, Select/Omit mode and spelling, permission tags denied, value forms, which check classes occurred, key kind); non-trivial = at least one cell had to be written or refreshed, or a given value had to be kept out by a permission tag / Select / Omit",
+	Rule: "per case one model type built with reflect.StructOf (key int64 / uint / string / composite (int64,string); 3..7 fields of 20 Go kinds incl. pointers and sql.Null*, custom column names, one random permission tag each out of <-:create, <-:update, <-:false, <-, ->, ->;<-:create, ->;<-:update, ->:false;<-:create, ->:false;<-, ->:false, -, -:migration, -:all; about 3 data fields in 10 also carry a default value in either tag order - default:(SQL expression) or default:null, which only the database evaluates (schema.FieldsWithDefaultDBValue), or a literal default:N / default:text gorm writes itself for a zero value - with the same DEFAULT in the table's DDL; 0..3 tracked time fields: UpdatedAt/CreatedAt by name, autoUpdateTime (time, seconds, milli, nano), autoCreateTime) over a table created with raw SQL holding 3..6 rows of unique sentinels; 12 writes per case, each on a re-seeded table: " +
+		"Create(struct | slice | []*T | map | []map), CreateInBatches, upsert (DoUpdates AssignmentColumns / Assignments, UpdateAll, DoNothing; conflicting and new keys mixed), Save (existing key, new key, zero key, slice, under a Where), Updates(struct by value/pointer, value = model), Updates(map), Update, UpdateColumn, UpdateColumns(struct | map) x Select/Omit (none, names, '*', '*'+Omit, names+Omit, Omit('*'); field-name and column spelling; string and []string form) x values zero / non-zero / pointer-to-zero / nil / gorm.Expr x targets Model(key), Where (8 forms, 1..2), Model(key)+Where, Model(slice of keys)[+Where], missing key, value = model [+Where]; creates whose records carry integer keys while the key column is omitted / left unselected (1 in 5: the database must assign the key); one operation in three runs its chain calls (Model, Where, Select, Omit, Clauses) in a random order; a column an INSERT may not write must hold the column's DDL default (else NULL); " +
+		"distinct = (finisher, target form, Select/Omit mode and spelling, permission tags denied, value forms, which check classes occurred, key kind, kinds of default whose given value had to be kept out of an INSERT, key carried but omitted, chain calls reordered); non-trivial = at least one cell had to be written or refreshed, or a given value had to be kept out by a permission tag / Select / Omit",
 	Assumptions: []string{
 		"the table is created with raw SQL (the migrator is not under test) and every chain starts with db.Table(name) (reflect.StructOf types have no name); ignored fields (`-`, `-:all`) get a ghost column so that a write to them is visible",
 		"`->:false` without a `<-` tag: the statement does not fix its write permission, the column is not checked in addressed rows (rows outside the target are)",
@@ -413,6 +447,12 @@ var Engine = &core.Engine{
 		"Omit('*') only on Updates/Update/UpdateColumn(s); Save of a new key and Save under a condition only with Omit; upsert with explicit DoUpdates without Select/Omit; UpdateAll only with Omit",
 		"batches carry either only zero keys or only explicit keys; the new keys are then max+1.. (SQLite rowid) resp. the given ones; composite keys are always given completely (both parts non-zero)",
 		"conditions are evaluated by SQLite itself (raw SELECT) to get the target set; their rendering is C02's subject",
+		"default values: a zero struct value of a field with a default must end up as the default OR as the zero value (the statement does not say which); in an upsert conflict row the new value of such a field is not checked when it is zero or when the default is database-evaluated (UpdateAll leaves those columns out), while denied / omitted / unlisted columns must still stay; in a batch of maps a key only other maps carry is not checked on a default column (NULL versus default)",
+		"within one batch of structs a database-evaluated default field is zero in every record or non-zero in every record (for a mixed batch gorm renders the DEFAULT keyword, which SQLite does not parse); time and []byte fields only get default:null; key, tracked-time and ignored fields get no default",
+		"a field tagged ->:false (not readable) gets no default: gorm adds RETURNING <col> for database-default fields and fails to scan it back into an unreadable field (Scan error / nil field dereference in gorm.Scan, later rows of the batch not inserted): a read-back matter outside this statement, see the report of the strengthening round",
+		"the key column is omitted / left unselected on creates only for single integer keys (the database can assign one); string and composite keys are always written",
+		"the chain calls commute: Table() always comes first, the finisher last, map conditions use column names (no model is needed to resolve them)",
+		"one violation per distinct class of disagreement of an operation (so a known finding does not hide another class in the same operation); the known-finding signature upsert-doupdates-ignores-update-permission is only given to existing (conflicting) rows",
 		"the value of Updates(struct) has the model's own type (different-schema values are not generated); Model(slice) only with non-zero keys",
 	},
 	Cases: func(tier string) int {
